@@ -136,8 +136,20 @@ def judgeFifo (c : Case) (k : Nat) (n : Nat) (v : String) : List String :=
 /-- every read of a fault-free call is one access of exactly the planned register and length;
     `sh` is the recorded configuration the call started from (`none` in quiet mode: then a
     refused FIFO read, which plans no access, is tolerated) -/
+def rdAddr : Acc → Nat | .rd a _ _ => a | _ => 0
+
 def readsOk (sh : Option Regs) (op : Op) (accs : List Acc) (ff : Bool) : Bool :=
-  if !ff then true
+  if !ff then
+    -- a call cut short by a bus failure attempts a PREFIX of its plan (Thm.exec_prefix): a read that is
+    -- retried, or attempted after the failure, is not "one" read
+    match sh with
+    | some sh =>
+      -- (a read whose address phase failed over SPI decodes with length 0: addresses are compared,
+      --  and every ACKNOWLEDGED read must be a planned one in full)
+      ((accs.filter isRd).map rdAddr).isPrefixOf ((plannedReads (op.plan sh).acts).map rdAddr)
+      && (accs.filter (fun a => match a with | .rd _ _ true => true | _ => false)).all
+           (fun a => (plannedReads (op.plan sh).acts).contains a)
+    | none => true
   else
     let got := accs.filter isRd
     match sh with
@@ -148,7 +160,10 @@ def judgeOp (c : Case) (k : Nat) (op : Op) (prev : Obs) (o : Obs) : List String 
   let t := c.ctor.transport c.dev
   let tr := judgeTransport t k o
   match decode t o.journal, prev.chip, o.chip, prev.shadow, o.shadow with
-  | some accs, some pre, some post, some shPre, some shPost =>
+  | some accs, some pre0, some post, some shPre, some shPost =>
+    -- what the device did by itself before this call (`@` tokens of the case)
+    let pre := poke pre0 (c.pokesAt (k - 1))
+    let c := { c with pos := c.posAt (k - 1), neg := c.negAt (k - 1) }
     let ff := faultFree o.journal
     let coherentOk :=
       -- C16: unless a pin operation failed, belief = device after the call
@@ -194,7 +209,7 @@ def judgeOp (c : Case) (k : Nat) (op : Op) (prev : Obs) (o : Obs) : List String 
         if onlyDataFaults o.journal && decide (Inv6 pre) then chk "C06" k (decide (Inv6 post)) else []
       | _ => []
     tr ++ coherentOk ++ specific ++ inv6
-      ++ chk "reads" k (readsOk (some shPre) op accs ff)
+      ++ chk "reads" k (readsOk (if ff || onlyDataFaults o.journal then some shPre else none) op accs ff)
       ++ chk "accesses" k (accessesOk shPre op accs ff)
       ++ (match op with
           | .config _ | .selfTest => if ff then chk "recorded" k (decide (Recorded shPre shPost (okWrites accs))) else []
@@ -262,11 +277,13 @@ def stepLine (line : String) : String :=
             let firstM := fmtObs c.quiet j0 w0 out0
             let t := c.ctor.transport c.dev
             let prevs := o0 :: os
-            let outs := (c.ops.zip prevs).map (fun (p : (Op × List Nat) × Obs) =>
+            let outs := ((c.ops.zip prevs).zip (List.range c.ops.length)).map (fun (pk : ((Op × List Nat) × Obs) × Nat) =>
+              let p := pk.1
+              let k := pk.2
               let prev := p.2
               match prev.chip, prev.shadow with
               | some regs, some sh =>
-                let chip : Chip := { regs := regs, pos := c.pos, neg := c.neg, fifo := c.fifo, csHigh := prev.csHigh,
+                let chip : Chip := { regs := poke regs (c.pokesAt k), pos := c.posAt k, neg := c.negAt k, fifo := c.fifo, csHigh := prev.csHigh,
                                      spiMode := true, dummy := c.dummy }
                 let w : World := { chip := chip, shadow := sh }
                 let (j, w', o) := runOp t (failsOf p.1.2) w p.1.1
